@@ -901,6 +901,7 @@ impl<'b> InnerBucket<'b> {
                             Ok(i) => i,
                             _ => panic!("child branch not found"),
                         };
+                        let mut merged_right = false;
                         if node.data.len() > 0 && branches.len() > 1 {
                             // add that child's data to a sibling node
                             let sibling_page = if index == 0 {
@@ -918,6 +919,12 @@ impl<'b> InnerBucket<'b> {
                             let mut sibling = sibling.borrow_mut();
                             // Copy this node's data over to it's sibling
                             sibling.data.merge(&mut node.data);
+                            if index == 0 {
+                                // The right sibling now starts with this node's keys, so it takes
+                                // over this node's place (and separator key) in the parent.
+                                sibling.original_key = node.original_key.clone();
+                                merged_right = true;
+                            }
                             if !node.children.is_empty() {
                                 // Move all children nodes over to that sibling too
                                 for child in node.children.iter() {
@@ -933,7 +940,12 @@ impl<'b> InnerBucket<'b> {
                         node.deleted = true;
                         if let NodeData::Branches(branches) = &mut parent.data {
                             // remove the child from this node
-                            branches.remove(index);
+                            let removed = branches.remove(index);
+                            if merged_right {
+                                // keep the separator of the removed child for the sibling that
+                                // absorbed its data, otherwise searches for those keys go astray
+                                branches[0].key = removed.key;
+                            }
                         }
                         if let Some(i) = parent.children.iter().position(|x| *x == node.id) {
                             parent.children.remove(i);
